@@ -283,7 +283,7 @@ def inert_statement(draw, pool, kinds=None):
         return {"k": "incfactor", "kind": draw(st.sampled_from(("IncludeBirthFactor", "IncludeDecayFactor"))), "p": draw(lab),
                 "yn": draw(st.sampled_from(("yes", "no")))}
     if k == "lspw":
-        return {"k": "lspw", "m": draw(lab), "d1": draw(lab), "d2": draw(lab), "i": str(draw(st.integers(0, 9)))}
+        return {"k": "lspw", "m": draw(lab), "d1": draw(lab), "d2": draw(lab), "i": str(draw(st.sampled_from((0, 1, 2, 3, 9, 10, 12, 100))))}
     return {"k": "photos", "yes": draw(st.booleans())}
 
 
